@@ -21,10 +21,10 @@ RULE = ("harness-built cover-labelled networks: N 8..16 vertices, 5..12 motifs f
         "motifs pairwise sharing <= 1 vertex, with cycles in the motif hypergraph (10% tree-like controls); phi grid of 11 (quick) / 21 (thorough) "
         "points + random; iterations in {1,2,3,5,25,60}; histories of 10..40 queries per object in random, ascending and descending phi order with "
         "repeats; non-trivial = giant-component fraction > 1e-3 at some fast-convergence phi; distinct = SHA-1 of the labelled network")
-ASSUMPTIONS = ["equality with the reference fixed point is asserted only at phi where the reference converges to 1e-13 within 20 sweeps (fast points), at 1e-6",
+ASSUMPTIONS = ["equality with the reference fixed point is asserted only at phi where the reference converges to 1e-13 within 20 sweeps under four different in-place update orders (forward, reverse, two random) and all four agree (fast, order-independent points), at 1e-6; where the equations have several fixed points the property does not say which update order selects 'the' fixed point",
                "label format f'{k}-{vertices}-{edges}-{id}' as the mixin parses it; vertex ids are non-negative ints",
                "`_H_tau` residual check is auxiliary (hasattr-guarded)"]
-HEADLINE = ["networks", "queries", "fixed_point_equalities", "nontrivial_equalities", "slow_points_skipped", "monotonicity_pairs", "bounds_checks",
+HEADLINE = ["networks", "queries", "fixed_point_equalities", "nontrivial_equalities", "slow_points_skipped", "order_dependent_points_skipped", "monotonicity_pairs", "bounds_checks",
             "reuse_vs_fresh_checks", "residual_checks", "loopy_networks", "treelike_controls"]
 REQUIRED = {"quick": {"fixed_point_equalities": 20, "nontrivial_equalities": 5, "monotonicity_pairs": 100, "reuse_vs_fresh_checks": 30, "loopy_networks": 5},
             "thorough": {"fixed_point_equalities": 500, "nontrivial_equalities": 100, "monotonicity_pairs": 3000, "reuse_vs_fresh_checks": 800, "loopy_networks": 100}}
@@ -101,19 +101,40 @@ class Reference:
         counts, ne = self.tables[(v, m)]
         return percolation_value(counts, ne, v, phi, u)
 
-    def solve(self, phi, max_sweeps=400, tol=1e-13):
+    def solve(self, phi, max_sweeps=400, tol=1e-13, order=None):
         H = {(v, m): 0.5 for m, (vs, es) in enumerate(self.motifs) for v in vs}
+        seq = order or [(m, v) for m, (vs, es) in enumerate(self.motifs) for v in vs]
         for it in range(1, max_sweeps + 1):
             d = 0.0
-            for m, (vs, es) in enumerate(self.motifs):
-                for v in vs:
-                    new = self.step(H, m, v, phi)
-                    d = max(d, abs(new - H[(v, m)]))
-                    H[(v, m)] = new
+            for m, v in seq:
+                new = self.step(H, m, v, phi)
+                d = max(d, abs(new - H[(v, m)]))
+                H[(v, m)] = new
             if d < tol:
                 break
         S = 1 - sum(math.prod(H[(v, m)] for m in self.memb.get(v, [])) for v in self.G.nodes()) / self.G.order()
         return S, it, H
+
+    def solve_order_independent(self, phi, rng, max_sweeps=21):
+        """The property speaks of THE fixed point reached from the uniform 0.5 start.  Where the equations have several fixed
+        points (typically at phi = 1) which one is reached depends on the order of the in-place updates, which the property does
+        not fix; equality with the implementation is therefore asserted only where forward, reverse and two random update orders
+        all converge fast and agree."""
+        base = [(m, v) for m, (vs, es) in enumerate(self.motifs) for v in vs]
+        orders = [base, base[::-1]]
+        for _ in range(2):
+            o = list(base)
+            rng.shuffle(o)
+            orders.append(o)
+        vals = []
+        for o in orders:
+            S, it, H = self.solve(phi, max_sweeps=max_sweeps, order=o)
+            if it > max_sweeps - 1:
+                return None, "slow"
+            vals.append(S)
+        if max(vals) - min(vals) > 1e-9:
+            return None, "order-dependent"
+        return vals[0], "ok"
 
 
 def run_case(case):
@@ -131,12 +152,15 @@ def run_case(case):
     grid = [i / (case["grid"] - 1) for i in range(case["grid"])]
     ctx = {"motifs": [(vs, es) for vs, es in motifs], "n": G.order()}
     fast = {}
+    orng = random.Random(case["seed"] + 17)
     for phi in grid:
-        S, it, H = ref.solve(phi, max_sweeps=21)
-        if it <= 20:
+        S, why = ref.solve_order_independent(phi, orng)
+        if why == "ok":
             fast[phi] = S
-        else:
+        elif why == "slow":
             res.count("slow_points_skipped")
+        else:
+            res.count("order_dependent_points_skipped")
     # (1) equality at fast points, object with many iterations
     MP = sut("MessagePassing(G, iterations=40)", gcmpy.MessagePassing, G, iterations=40)
     nt = False
